@@ -16,14 +16,29 @@ namespace
 // =========================================================================
 // vterm.c
 // =========================================================================
-void c_write(void *priv, const char *data, unsigned int n) { ((Sink *)priv)->on_write(data, n); }
-void c_exec(void *priv, const char *line, unsigned int n) { ((Sink *)priv)->on_exec(line, n); }
-void c_signal(void *priv, int sig) { ((Sink *)priv)->on_signal(sig); }
+// each callback is registered with a private pointer of its own and checks that it is the one it gets
+struct Priv
+{
+    Sink *sink;
+    int kind; // 1 write, 2 execute, 3 signal
+};
+Sink *own(void *priv, int kind, const char *who)
+{
+    Priv *p = (Priv *)priv;
+    if (p->kind != kind && p->sink->priv_err.empty())
+        p->sink->priv_err = std::string("the ") + who + " callback was called with the private pointer registered for " +
+                            (p->kind == 1 ? "write" : p->kind == 2 ? "execute" : "signal");
+    return p->sink;
+}
+void c_write(void *priv, const char *data, unsigned int n) { own(priv, 1, "write")->on_write(data, n); }
+void c_exec(void *priv, const char *line, unsigned int n) { own(priv, 2, "execute")->on_exec(line, n); }
+void c_signal(void *priv, int sig) { own(priv, 3, "signal")->on_signal(sig); }
 
 struct CTerm
 {
     std::unique_ptr<Exact> linep, histp; // exactly cap and cap*H bytes: the first byte outside is an ASan fault
     vterm_automate vt;
+    Priv pw{nullptr, 1}, pe{nullptr, 2}, ps{nullptr, 3};
 
     CTerm(unsigned cap, unsigned H, Sink *sink)
     {
@@ -38,9 +53,12 @@ struct CTerm
         std::unique_ptr<Exact> l2(new Exact(cap)), h2(new Exact((size_t)cap * H));
         memset(l2->p, 0xEE, cap);
         vterm_automate_init(&vt, l2->c(), cap, h2->c(), H);
-        vterm_set_write_callback(&vt, c_write, sink);
-        vterm_set_execute_callback(&vt, c_exec, sink);
-        vterm_set_signal_callback(&vt, c_signal, sink);
+        pw = Priv{sink, 1};
+        pe = Priv{sink, 2};
+        ps = Priv{sink, 3};
+        vterm_set_write_callback(&vt, c_write, &pw);
+        vterm_set_execute_callback(&vt, c_exec, &pe);
+        vterm_set_signal_callback(&vt, c_signal, &ps);
         linep = std::move(l2);
         histp = std::move(h2);
     }
@@ -53,8 +71,9 @@ struct CTerm
         unsigned n = vt.rl.line.len;
         return n < vt.rl.line.cap ? std::string(vt.rl.line.buf, n) : std::string();
     }
-    void extra_check(const RefEditor &, EvKind, const char *)
+    void extra_check(const RefEditor &ref, EvKind, const char *when)
     {
+        check_linecpy(ref.line, [&](char *d, size_t m) { return readline_linecpy(&vt.rl, d, m); }, when);
         VP_CHECK(vt.rl.line.buf == linep->c() && vt.rl.history_space == histp->c(), "buffers_moved", "the terminal no longer uses the buffers it was given");
     }
 };
